@@ -458,6 +458,28 @@ impl Hist {
                     None => bad(),
                 }
             }
+            ["W", rest @ ..] => {
+                // a version written by somebody else (another implementation of the documented
+                // format) lands on the server: its operations need not be valid where they stand — a
+                // Create of a task that exists, an Update of one that does not
+                let mut ops = Vec::new();
+                for grp in rest.split(|t| *t == ";") {
+                    if grp.is_empty() {
+                        continue;
+                    }
+                    match parse_pop(grp) {
+                        Some(POp::Create(uuid)) => ops.push(Operation::Create { uuid }),
+                        Some(POp::Delete(uuid)) => ops.push(Operation::Delete { uuid, old_task: TaskMap::new() }),
+                        Some(POp::Update(uuid, property, value, timestamp)) => ops.push(Operation::Update { uuid, property, old_value: None, value, timestamp }),
+                        None => return bad(),
+                    }
+                }
+                let doc = taskchampion::server::verif::encode_version(ops);
+                let mut c = self.chain.borrow_mut();
+                c.versions.push(doc);
+                let n = c.versions.len();
+                (line.to_string(), vec![format!("foreign v{}", n)])
+            }
             ["X", r, _n, rest @ ..] => {
                 let r: usize = r.parse().unwrap();
                 let mut pops = Vec::new();
@@ -594,6 +616,8 @@ pub struct GenCfg {
     pub stepped: bool,
     pub faults: bool,
     pub snapshots: bool,
+    /// versions written by another implementation land on the server now and then
+    pub foreign: bool,
 }
 
 fn gen_str(rng: &mut Rng, pool: &[&str]) -> String {
@@ -676,6 +700,18 @@ pub fn gen_case(rng: &mut Rng, cfg: &GenCfg) -> (usize, u64, Vec<String>) {
                 stepping[r] = true;
                 continue;
             }
+        }
+        if cfg.foreign && rng.chance(1, 14) {
+            let (s, n) = *rng.pick(&times);
+            let mut parts = vec![format!("create {}", u)];
+            if rng.chance(1, 2) {
+                parts.push(format!("update {} {} {} {} {}", u, gen_str(rng, &keys), gen_str(rng, &vals), s, n));
+            }
+            if rng.chance(1, 4) {
+                parts.push(format!("create {}", 1 + rng.below(ntasks)));
+            }
+            lines.push(format!("W {}", parts.join(" ; ")));
+            continue;
         }
         if roll < 18 {
             lines.push(format!("C {} create {}", r, u));
